@@ -31,6 +31,7 @@ def check(run):
     units.check_query_siblings(run, P)
     _query_preparation(run, P)
     _sklearn_positional(run, P)
+    _query_layout(run, P)
     _element_count_follows_kind(run, P)
 
 
@@ -163,6 +164,57 @@ SKLEARN_SIG = {
 }
 
 
+def _query_layout(run, P):
+    """The query arrays are point-major ([n_points, n_components]).  A transposition of the query array inside the preparation helpers is admissible only under a
+    guard that excludes the point-major reading (`x.shape[1] != n_components`): without it a batch of exactly n_components points - a square array - is transposed
+    although it already is point-major, and every index/distance of that batch is wrong."""
+    import ast
+    from ..astutil import norm, where
+    for fname, ncomp in (("_prepare_xyz_for_query", 3), ("_prepare_xy_for_query", 2)):
+        f = P.func(f"{NEI}:{fname}")
+        p0 = f.params()[0]
+        c = f"{f.key}:layout"
+
+        def transposes(e):
+            for n in ast.walk(e):
+                if isinstance(n, ast.Attribute) and n.attr == "T" and norm(n.value) == p0:
+                    yield n
+                if isinstance(n, ast.Call) and (n.func.attr if isinstance(n.func, ast.Attribute) else getattr(n.func, "id", "")) in ("transpose", "swapaxes", "moveaxis") and (norm(n.func.value) == p0 if isinstance(n.func, ast.Attribute) and not (isinstance(n.func.value, ast.Name) and n.func.value.id in ("np", "numpy")) else (n.args and norm(n.args[0]) == p0)):
+                    yield n
+        found = []
+
+        def walk(stmts, guards):
+            for st in stmts:
+                if isinstance(st, ast.If):
+                    walk(st.body, guards + [(st.test, True)])
+                    walk(st.orelse, guards + [(st.test, False)])
+                elif isinstance(st, (ast.For, ast.While, ast.With, ast.Try)):
+                    for fld in ("body", "orelse", "finalbody"):
+                        walk(getattr(st, fld, []) or [], guards)
+                else:
+                    for t in transposes(st):
+                        found.append((st, t, guards))
+        walk(f.node.body, [])
+        if not found:
+            run.holds("F-PATH/query-layout", c, where(f), "the query array is never transposed: point-major throughout")
+            continue
+        for st, t, guards in found:
+            excl = False
+            for g, truth in guards:
+                if not truth:
+                    continue
+                conj = g.values if isinstance(g, ast.BoolOp) and isinstance(g.op, ast.And) else [g]
+                for cmp_ in conj:
+                    if (isinstance(cmp_, ast.Compare) and len(cmp_.ops) == 1 and isinstance(cmp_.ops[0], ast.NotEq) and norm(cmp_.left) in (f"{p0}.shape[1]", f"{p0}.shape[-1]")
+                            and isinstance(cmp_.comparators[0], ast.Constant) and cmp_.comparators[0].value == ncomp):
+                        excl = True
+            if excl:
+                run.holds("F-PATH/query-layout", c, where(f, st), f"transposition only when the array is not point-major ({p0}.shape[1] != {ncomp})")
+            else:
+                run.violation("F-PATH/query-layout", c, where(f, st), f"`{norm(st)[:60]}` transposes the query points under a guard that a point-major batch of exactly {ncomp} points also satisfies "
+                              f"(no `{p0}.shape[1] != {ncomp}`): such a batch is queried with its coordinates mixed up")
+
+
 def _sklearn_positional(run, P):
     """every positional argument handed to the sklearn tree sits in the slot of the sklearn parameter of the same name
     (two booleans exchanged compile and run, but e.g. turn off sort_results: neighbours are no longer nearest-first)"""
@@ -186,6 +238,24 @@ def _sklearn_positional(run, P):
                 for k in c.keywords:
                     if k.arg in sig_ and isinstance(k.value, ast.Name) and k.value.id in sig_ and k.value.id != k.arg:
                         bad.append(f"'{k.value.id}' passed as {k.arg}=")
+                # k-nearest queries: what reaches sklearn's sort_results is the caller's own choice (default True).  sklearn returns the k neighbours in heap
+                # order (farthest first) when it is False, with or without distances, so weakening it breaks "nearest first" for the calls it is weakened for.
+                if c.func.attr == "query":
+                    from ..astutil import LocalDefs
+                    sr = c.args[5] if len(c.args) > 5 else next((k.value for k in c.keywords if k.arg == "sort_results"), None)
+                    ld = LocalDefs(f.node)
+                    if isinstance(sr, ast.Name) and sr.id == "sort_results" and ld.defs.get("sort_results"):
+                        exprs = [v for v, _i, _l in ld.defs["sort_results"]]
+                        weak = [e for e in exprs for b in ast.walk(e) if isinstance(b, ast.BoolOp) and isinstance(b.op, ast.And) and any(isinstance(x, ast.Name) and x.id == "sort_results" for x in ast.walk(b)) and any(isinstance(x, ast.Name) and x.id != "sort_results" for x in ast.walk(b))]
+                        if weak:
+                            bad.append(f"sort_results is rebound to `{norm(weak[0])[:60]}` before it reaches the tree: a k-nearest query asked to sort comes back in heap order (farthest first) whenever the other operand is false")
+                        else:
+                            run.incomplete("F-SIG/sklearn-positional", key + ":sort_results", where(f, c), f"sort_results is rebound in the method ({norm(exprs[0])[:60]}): what reaches the tree is not decided")
+                    elif sr is not None and not (isinstance(sr, ast.Name) and sr.id == "sort_results") and not (isinstance(sr, ast.Constant) and sr.value is True):
+                        if isinstance(sr, ast.Constant) and sr.value is False:
+                            bad.append("sort_results=False is hard-wired: the k nearest come back in heap order, not nearest first")
+                        else:
+                            run.incomplete("F-SIG/sklearn-positional", key + ":sort_results", where(f, c), f"sort_results={norm(sr)[:60]} is not the method's own parameter")
                 if bad:
                     run.violation("F-SIG/sklearn-positional", key, where(f, c), "; ".join(bad) + f" (sklearn: {c.func.attr}({', '.join(sig_)}))")
                 else:
